@@ -411,7 +411,8 @@ Proof.
     apply andb_true_iff in Ok. destruct Ok as [Ok Okm]. apply andb_true_iff in Ok. destruct Ok as [Os On].
     apply andb_true_iff in On. destruct On as [Wn _].
     unfold render_nums. cbn [flat_map fst snd]. rewrite <- !app_assoc.
-    rewrite !nocmd_app, (nocmd_seps _ Os), (nocmd_ntext _ Wn). cbn [andb].
+    fold (render_nums more trail).
+    rewrite nocmd_app, (nocmd_seps _ Os), nocmd_app, (nocmd_ntext _ Wn). cbn [andb].
     exact (IH (Some n) Okm Tr).
 Qed.
 
@@ -420,6 +421,12 @@ Qed.
 
 Lemma render_app l1 l2 trail : render (l1 ++ l2) trail = render l1 [] ++ render l2 trail.
 Proof. unfold render. rewrite flat_map_app, app_nil_r, app_assoc. reflexivity. Qed.
+
+Lemma render_cons s t more trail :
+  render ((s, t) :: more) trail = s ++ stext t ++ render more trail.
+Proof. unfold render. cbn [flat_map fst snd]. rewrite <- !app_assoc. reflexivity. Qed.
+Lemma render_nums_trail pre s x : render_nums pre [] ++ s ++ x = render_nums pre s ++ x.
+Proof. unfold render_nums. rewrite app_nil_r, <- !app_assoc. reflexivity. Qed.
 
 Lemma last_prev_as_items prev l :
   last_prev prev (as_items l) = match rev l with [] => prev | (_, n) :: _ => Some n end.
@@ -442,12 +449,8 @@ Proof.
       rewrite items_ok_app in Ok. apply andb_true_iff in Ok. destruct Ok as [Okp Ok].
       cbn [items_ok] in Ok. apply andb_true_iff in Ok. destruct Ok as [Ok Okm].
       apply andb_true_iff in Ok. destruct Ok as [Os _].
-      change ((s, SCmd c up) :: more) with ([(s, SCmd c up)] ++ more).
-      rewrite !render_app. rewrite render_as_items.
-      unfold render at 2. cbn [flat_map fst snd stext]. rewrite !app_nil_r.
-      replace ((render_nums pre [] ++ s ++ [cmd_char c up]) ++ render more trail)
-        with (render_nums pre s ++ cmd_char c up :: render more trail).
-      2:{ unfold render_nums. rewrite app_nil_r, <- !app_assoc. reflexivity. }
+      rewrite render_app, render_as_items, render_cons, render_nums_trail.
+      cbn [stext app].
       rewrite tokenize_cmd;
         [|eapply nocmd_render_nums; eassumption|apply cmd_char_is_cmd].
       rewrite (findall_run pre None s Okp Os).
